@@ -70,6 +70,9 @@ static void vf_crash_handler(int sig) {
 static void vf_log_open(const char* path) {
   vf_log_fd = open(path, O_WRONLY | O_CREAT | O_TRUNC, 0644);
   if (vf_log_fd < 0) { perror("open trace"); exit(3); }
+  /* make the whole log buffer resident now, so process residency measurements are not disturbed by the logger later */
+  for (size_t i = vf_loglen; i < VF_LOGBUF; i += 4096) ((volatile char*)vf_logbuf)[i] = 0;
+  ((volatile char*)vf_logbuf)[VF_LOGBUF - 1] = 0;
   struct sigaction sa; memset(&sa, 0, sizeof(sa));
   sa.sa_handler = vf_crash_handler;
   static char altstack[1 << 16];
